@@ -89,6 +89,84 @@ def pile_wf(s):
 ROWS = ListOf(Opt(Int))
 
 
+# --------------------------------------------------------------------------------------------- Pile: the shared geometry
+#
+# One description of "which rows child j occupies and which size it is handed", used by every entry point
+# (C09/C01): child j is handed the size SA(j) and occupies the rows [PH(j), PH(j) + HS(j)).
+#   HS(j)  = rows of item j:  given: its height;  a weighted item of a box Pile: its share (get_item_rows);
+#            otherwise what the child itself reports for the size it is handed (flow: (maxcol,), a fixed-only
+#            packed child: ()) -- i.e. the rows of its rendering (widget protocol)
+#   PH(k)  = sum over j<k of HS(j)        (recursive definition, instantiated groundly: ph_unfold)
+
+_PH = z3.Function("pile$PH", z3.BoolSort(), z3.IntSort(), z3.IntSort())
+
+
+def PH(focus, k):
+    return mk_int(_PH(V._zb(focus), V._z(k)))
+
+
+def child_focus(p, j, focus):
+    return both(focus, eq(_focus_widget(p), item_at(p, j)[0]))
+
+
+def pile_item_rows_spec(p, size, focus):
+    """The rows a box Pile gives its items: the value of get_item_rows (a deterministic function)."""
+    st = cur()
+    key = ("pile-IR", str(V._zb(focus)))
+    if key not in st.ghost:
+        st.ghost[key] = pile_get_item_rows.spec_value(p, size=size, focus=focus)
+    r = st.ghost[key]
+    return r.seq if hasattr(r, "seq") else r
+
+
+def pile_item_kind(p, j, size):
+    """(given, share, fixed, flow): which of the four ways item j is sized (formulas, exactly one holds)."""
+    w, (f, h) = item_at(p, j)
+    given = f == "given"
+    packlike = either(f == "pack", len(size) == 1)
+    has_flow, has_fixed = sizing_has(w, _pile.Sizing.FLOW), sizing_has(w, _pile.Sizing.FIXED)
+    fixed = both(neg(given), packlike, neg(has_flow), has_fixed, f == "pack")
+    share = both(neg(given), neg(packlike))
+    flow = both(neg(given), packlike, neg(fixed))
+    return given, share, fixed, flow
+
+
+def pile_item_height(p, j, size, focus):
+    """HS(j) as a formula (never forks)."""
+    W = PROTOCOLS["Widget"]
+    st = cur()
+    w, (f, h) = item_at(p, j)
+    given, share, fixed, flow = pile_item_kind(p, j, size)
+    foc = child_focus(p, j, focus)
+    as_fixed = W.call_quiet(st, w, "pack", dict(size=(), focus=foc))[1]
+    as_flow = W.call_quiet(st, w, "pack", dict(size=(size[0],), focus=foc))[1]
+    r = ite(fixed, as_fixed, as_flow)
+    if len(size) == 2:
+        r = ite(share, Q.seq_get(pile_item_rows_spec(p, size, focus), j), r)
+    return ite(given, h.val, r)
+
+
+def pile_item_size_is(sa, p, j, size, focus):
+    """`sa` is SA(j), the size child j is handed (formula)."""
+    w, (f, h) = item_at(p, j)
+    given, share, fixed, flow = pile_item_kind(p, j, size)
+    maxcol = size[0]
+    alts = [both(given, V.struct_eq(sa, (maxcol, h.val))), both(fixed, V.struct_eq(sa, ())), both(flow, V.struct_eq(sa, (maxcol,)))]
+    if len(size) == 2:
+        alts.append(both(share, V.struct_eq(sa, (maxcol, Q.seq_get(pile_item_rows_spec(p, size, focus), j)))))
+    return either(*alts)
+
+
+def ph_unfold(p, j, size, focus):
+    """Definitional axioms of PH at index j (0 <= j < n)."""
+    st = cur()
+    zj = V._z(j)
+    ok = z3.And(zj >= 0, zj < V._z(n_items(p)))
+    zf = V._zb(focus)
+    st.assume(_PH(zf, z3.IntVal(0)) == 0)
+    st.assume(z3.Implies(ok, _PH(zf, zj + 1) == _PH(zf, zj) + V._z(pile_item_height(p, j, size, focus))))
+
+
 def _entry_ok(p, rn, j, maxcol, focus, done):
     """Entry j of rows_numbers: a positively weighted item is still None (or, once `done`, a non-negative
     share); every other item has exactly its own rows."""
@@ -140,38 +218,128 @@ def _gir_loop1(v):
     yield "share-proportional-to-weight", implies(both(i > 0, hp > 0), both(-wp <= d, d <= wp))
 
 
-@contract(PI + "Pile.get_item_rows", property=("C19", "C01"), inline=PINL, replayable=False)
-class pile_get_item_rows_box:
+def reads_only(target, allowed):
+    """Static check backing `deterministic_reads`: the body of `target` reads no attribute of `self` other than
+    `allowed` (properties over the contents list) and calls no method of `self` outside `allowed`."""
+    import ast
+
+    from pyvc import source as SRC
+
+    node = SRC.resolve(target).node
+    selfname = node.args.args[0].arg
+    seen = {n.attr for n in ast.walk(node) if isinstance(n, ast.Attribute) and isinstance(n.value, ast.Name) and n.value.id == selfname}
+    stores = {n.attr for n in ast.walk(node) if isinstance(n, ast.Attribute) and isinstance(n.value, ast.Name) and n.value.id == selfname and isinstance(n.ctx, (ast.Store, ast.Del))}
+    extra = sorted(seen - set(allowed))
+    return ("reads-only-" + "-".join(sorted(allowed)), not extra and not stores, f"self attributes used: {sorted(seen)}; written: {sorted(stores)}")
+
+
+def register_per_item(n, clause):
+    """A verified postcondition of the form `for all 0 <= j < n: clause(j)` is not asserted at the call site as a
+    quantified fact; it is kept here and instantiated at the indices in play by `pile_at` (DESIGN 3.7)."""
+    cur().ghost.setdefault("per_item", []).append((n, clause))
+
+
+def pile_at(*indices):
+    """Instantiate the registered per-item postconditions (of get_item_rows / get_rows_sizes calls made so far on
+    this path) at the given indices."""
+    st = cur()
+    for n, clause in list(st.ghost.get("per_item", [])):
+        for j in indices:
+            st.assume(implies(both(0 <= j, j < n), clause(j)))
+
+
+def psum_of(seq, k):
+    """Sum of the first k elements of a list value (concrete or symbolic)."""
+    return Q.to_sseq(seq).psum(k)
+
+
+def entry_is(e, x):
+    """List entry e (possibly an optional value) is the integer x (formula, never forks)."""
+    if isinstance(e, V.SOpt):
+        return both(neg(mk_bool(e.isnone)), e.val == x)
+    return False if e is None else e == x
+
+
+def pile_size_ok(size):
+    return both(*[both(0 <= d, d < DIMMAX) for d in size])
+
+
+def _gir_flow_loop(v):
+    """Flow Pile: one entry per item so far, each the rows of that item (HS), and their sum is PH."""
+    p = v.self
+    i = v.i_
+    size, focus = v.size, v.focus
+    rn = v.rows_numbers.seq
+    ph_unfold(p, i - 1, size, focus)
+    yield "one-entry-per-item-so-far", Q.seq_len(rn) == i
+    yield "entries-are-the-items-rows", forall(0, i, lambda j: entry_is(Q.seq_get(rn, j), pile_item_height(p, j, size, focus)))
+    yield "summed", psum_of(rn, i) == PH(focus, i)
+
+
+@contract(PI + "Pile.get_item_rows", property=("C19", "C01"), inline=PINL, replayable=False, deterministic=True)
+class pile_get_item_rows:
     """Box case (size = (maxcol, maxrow)): every entry >= 0, given/packed items get exactly their rows,
-    and the weighted items share exactly what is left: sum = fixed + max(maxrow - fixed, 0)."""
+    and the weighted items share exactly what is left: sum = fixed + max(maxrow - fixed, 0).
+    Flow case (size = (maxcol,)): every item gets the rows of the shared geometry (HS): its given height, or
+    what the child reports for the size it is rendered at."""
 
     self_shape = PILE
-    params = dict(size=Tup(Int, Int), focus=Bool)
-    result = ROWS
+    params = dict(size=Union(Tup(Int, Int), Tup(Int)), focus=Bool)
+    result = ListOf(Int)  # no entry is None on return (clauses `entries...` below)
     raises = (_pile.PileError,)
+    # normal return <=> a positive weight (box): `had-a-weighted-item` / `only-without-a-positive-weight` below
+    raises_iff = {_pile.PileError: lambda s, a: both(len(a.size) == 2, WT(n_items(s)) <= 0)}
+    deterministic_reads = ("_contents",)
+    static_checks = [lambda: reads_only(PI + "Pile.get_item_rows", {"contents", "focus"})]
 
     def requires(s, a):
-        return both(pile_wf(s), 0 <= a.size[0], a.size[0] < DIMMAX, 0 <= a.size[1], a.size[1] < DIMMAX)
+        return both(pile_wf(s), pile_size_ok(a.size))
 
     def ensures(old, s, a, result):
         n = n_items(old)
-        maxcol, maxrow = a.size
         rn = result.seq if hasattr(result, "seq") else result
+        yield "one-entry-per-item", Q.seq_len(rn) == n
+        if len(a.size) == 1:
+            ph_unfold(old, n - 1, a.size, a.focus)
+            # (failed on the tree until fix 8cbf681: the flow branch took w.pack((), focused)[0], the width, as the rows of
+            #  a fixed-only packed child: Pile([('pack', BigText("123", Thin3x3Font())), Text('x')]).get_item_rows((12,), False) -> [9, 1])
+            yield "every-item-gets-the-rows-it-is-rendered-with", forall(0, n, lambda j: entry_is(Q.seq_get(rn, j), pile_item_height(old, j, a.size, a.focus)))
+            yield "sum-is-the-total-height", rn.psum(n) == PH(a.focus, n)
+            return
+        maxcol, maxrow = a.size
         pile_unfold(old, n - 1, maxcol, a.focus)
         fixed = FIX(n)
-        yield "one-entry-per-item", Q.seq_len(rn) == n
         yield "entries-non-negative-own-rows-for-given-and-pack", forall(0, n, lambda j: _entry_ok(old, rn, j, maxcol, a.focus, True))
         yield "weighted-items-fill-the-rest-exactly", rn.psum(n) == fixed + imax(maxrow - fixed, 0)
         yield "had-a-weighted-item", WT(n) > 0
 
+    def ensures_callee(old, s, a, result):
+        """At call sites: the quantifier-free clauses; the per-item clause is instantiated on demand (`pile_at`)."""
+        n = n_items(old)
+        rn = result.seq if hasattr(result, "seq") else result
+        yield "one-entry-per-item", Q.seq_len(rn) == n
+        if len(a.size) == 1:
+            per_item = lambda j: entry_is(Q.seq_get(rn, j), pile_item_height(old, j, a.size, a.focus))  # noqa: E731
+            yield "sum-is-the-total-height", rn.psum(n) == PH(a.focus, n)
+        else:
+            per_item = lambda j: _entry_ok(old, rn, j, a.size[0], a.focus, True)  # noqa: E731
+            fixed = FIX(n)
+            yield "weighted-items-fill-the-rest-exactly", rn.psum(n) == fixed + imax(a.size[1] - fixed, 0)
+            yield "had-a-weighted-item", WT(n) > 0
+        register_per_item(n, per_item)
+
     def on_raise(old, s, a, exc):
         n = n_items(old)
-        yield "only-without-a-positive-weight", WT(n) == 0
+        yield "only-a-box-pile-without-a-positive-weight", both(len(a.size) == 2, WT(n) == 0)
 
     loops = {
+        0: Loop(invariant=_gir_flow_loop, shapes={"rows_numbers": ListOf(Int)}),
         1: Loop(invariant=_gir_loop0, shapes={"rows_numbers": ROWS}),
         2: Loop(invariant=_gir_loop1, shapes={"rows_numbers": ROWS}),
     }
+
+
+pile_get_item_rows_box = pile_get_item_rows
 
 
 @lemma("prefix-sum-monotone", property="C19")
